@@ -176,8 +176,22 @@ class ServiceSystem:
       svc.CLOCK.now = now0
       outs.append(svc.apply(b, a))
     self._cc = None
+    # termination and quiescence: every call returns, and no lock of the server stays held once it has returned
+    stuck = False
+    for b, (cls, view, raw) in zip(self.bs, outs):
+      if cls == 'HANG':
+        stuck = True
+        vios.append(self.v('call-does-not-return', kind, pres[0], '%s did not return within %.0f s' % (kind, svc.CALL_TIMEOUT_S), b.kind))
+        continue
+      held = svc.held_locks(b.servicer)
+      if held:
+        stuck = True
+        vios.append(self.v('lock-held-after-call', kind, pres[0], '%s returned (%s) but left %s held: every later call that needs it blocks for ever' % (kind, cls, ', '.join(held)), b.kind))
+        b.restart()       # fresh server object on the same data, so that the exploration itself does not wedge
     posts = self.canons()
     self._last = outs[0][0]
+    if stuck:
+      return vios
     if kind in ('Tick', 'Restart'):
       for b, pre, post in zip(self.bs, pres, posts):
         if kind == 'Restart' and pre != post:
